@@ -377,6 +377,7 @@ def run(rep, facts, tier):
 
     rule_18_8(rep, fx)
     rule_18_9(rep, fx)
+    rule_18_10(rep, fx)
 
     # ------------------------------------------------------------ R18.7 crossed roles (shared lint, rdv/swaplint.py)
     from rdv import swaplint
@@ -656,3 +657,37 @@ def rule_18_9(rep, fx):
     rep.check(ok, 'R18.9', 'Criterion::from_xml/default-partition', 'no <partitions> section => the pattern of the default partition',
               'a criterion without a <partitions> section is parsed with an empty partition list: once entities pass their (default) partition no such rule applies any more, or, '
               'with an empty list on both sides, the condition is vacuous', cx[0].where() if cx else '')
+
+
+def rule_18_10(rep, fx):
+    """The built-in topics are exempted by name, not by a property of the name (added after seed C18g: `starts_with("DCPS")` exempted every user topic named DCPS... from
+    its deny rule)."""
+    rep.rule('R18.10', 'no verdict without the documents except for the listed names: in AccessControlBuiltin::check_entity every Ok(<constant>) result that is reached without '
+                       'consulting the governance topic rule and the grant (find_topic_rule / check_action) lies behind the equal edge of a whole-value string equality of the topic '
+                       'name with a constant; a partial predicate on the name (prefix, suffix, substring, length, pattern) is not an exemption')
+    b = fx.find('security::access_control::access_control_builtin::AccessControlBuiltin::check_entity')
+    rep.analysed(b)
+    og = Origins(b, summaries=True)
+    P = Pos(b)
+    edges = list(switch_edges(b, fx, og))
+    topic = ('param', 4)
+    eq_true = []
+    for s_, t_, c, lab in edges:
+        if c[0] == 'call' and c[1].rsplit('::', 1)[-1] in ('eq', 'ne') and ('str' in c[1] or 'String' in c[1] or 'cmp::' in c[1]) and len(c[2]) == 2:
+            x, y = c[2]
+            whole = lambda t: t == topic or (t[0] in ('call',) and t[1].rsplit('::', 1)[-1] in ('as_str', 'deref', 'as_ref', 'borrow') and t[2] and t[2][0] == topic)
+            const = lambda t: t[0] == 'const'
+            if (whole(x) and const(y)) or (whole(y) and const(x)):
+                m = c[1].rsplit('::', 1)[-1]
+                if (m == 'eq' and lab is True) or (m == 'ne' and lab is False):
+                    eq_true.append((s_, t_))
+    decide = [(bb, 'term') for bb, t in b.calls() if call_matches(t, 'Grant::check_action', 'DomainRule::find_topic_rule')]
+    if len(decide) < 2:
+        raise CheckBroken('R18.10: check_entity does not consult find_topic_rule and check_action')
+    sites = [(bb, si) for bb, si, st in b.statements() if st['s'] == 'assign' and st['lhs'].get('l') == 0 and not st['lhs'].get('p') and st['rv'].get('r') == 'agg' and
+             st['rv'].get('variant') == 'Ok' and all(o.get('o') == 'const' for o in st['rv'].get('ops', []))]
+    early = [s for s in sites if not P.every_path_passes(None, s, via_pos=decide, from_entry=True)]
+    ok = all(eq_true and P.every_path_passes(None, s, via_edges=eq_true, via_pos=decide, from_entry=True) for s in early)
+    rep.check(ok, 'R18.10', 'check_entity/exempt-by-name-only', '%d early constant verdict(s), each behind topic_name == <constant> (%d equalities)' % (len(early), len(eq_true)),
+              'AccessControlBuiltin::check_entity can answer with a constant verdict without consulting governance and grant on a path that has not found the topic name equal to a '
+              'listed constant (a prefix / pattern test on the name is not an exemption): a user topic can be named into the exemption and escapes its deny rule', b.where())
